@@ -75,15 +75,6 @@ Fixpoint alog_from (s : store) (ops : list aop) : list aentry :=
   end.
 Definition alog (ops : list aop) := alog_from ∅ ops.
 
-(** Exact reference answers from the log, keyed by the numbers. *)
-Definition spec_alist_epoch (l : list aentry) (e : Z) : list bytes :=
-  omap (fun x => if ae_epoch x =? e then Some (ae_id x) else None) l.
-Definition spec_alist_cid (l : list aentry) (e : Z) (cid : bytes) : list bytes :=
-  omap (fun x => if (ae_epoch x =? e) && bytes_eqb (ae_cid x) cid then Some (ae_id x) else None) l.
-Definition spec_alist_node (l : list aentry) (e : Z) (cid hk : bytes) : list bytes :=
-  omap (fun x => if (ae_epoch x =? e) && bytes_eqb (ae_cid x) cid && bytes_eqb (ae_hk x) hk
-                 then Some (ae_id x) else None) l.
-
 (** Observables: [q] = (epochs, cids, node hashes, one extra id for Get). *)
 Definition opt_val (o : option bytes) : val :=
   match o with Some b => VBytes b | None => VNull end.
